@@ -46,6 +46,33 @@ pub struct Scenario {
     pub pre: Vec<u64>,
     pub progs: Vec<Vec<Ins>>,
     pub raw: Value,
+    /// (model location name or raw key, mode)
+    pub fault: Option<(String, String)>,
+    /// explicit transactions (plain transfers / calls) instead of one driver call per program
+    pub txs: Option<Vec<TxSpec>>,
+    /// initial balances of the externally owned accounts (default 10^18)
+    pub balances: Vec<(usize, U256)>,
+    pub nonces: Vec<(usize, u64)>,
+}
+
+#[derive(Clone, Debug)]
+pub struct TxSpec {
+    pub from: usize,
+    /// `e<k>` for an externally owned account, `pc` for the driver (then `prog` selects the program)
+    pub to: String,
+    pub value: U256,
+    pub nonce: u64,
+    pub gas_limit: u64,
+    pub gas_price: u128,
+    pub prog: u8,
+}
+
+fn u256_of(v: &Value) -> U256 {
+    match v {
+        Value::String(s) => U256::from_str_radix(s, 10).expect("decimal value"),
+        Value::Number(n) => U256::from(n.as_u64().unwrap()),
+        _ => U256::ZERO,
+    }
 }
 
 impl Scenario {
@@ -82,10 +109,90 @@ impl Scenario {
             name: v["name"].as_str().unwrap_or("?").to_owned(),
             n: v["n"].as_u64().unwrap() as usize,
             pre: locs.iter().map(|l| v["pre"][l].as_u64().unwrap_or(0)).collect(),
+            fault: v["fault"].as_object().map(|f| {
+                let key = f["key"].as_str().unwrap();
+                let raw = match locs.iter().position(|l| l == key) {
+                    Some(i) => format!("S:{:x}:{:x}", holder(), i),
+                    None => match key {
+                        "ben" => format!("B:{:x}", account::MINER_ADDRESS),
+                        "h" => format!("B:{:x}", holder()),
+                        "pc" => format!("B:{:x}", driver()),
+                        k if k.starts_with('e') => format!("B:{:x}", account::mock_eoa_address(k[1..].parse().unwrap())),
+                        k => k.to_owned(),
+                    },
+                };
+                (raw, f["mode"].as_str().unwrap().to_owned())
+            }),
+            txs: v["txs"].as_array().map(|l| {
+                l.iter()
+                    .map(|t| TxSpec {
+                        from: t["from"].as_u64().unwrap() as usize,
+                        to: t["to"].as_str().unwrap_or("pc").to_owned(),
+                        value: u256_of(&t["value"]),
+                        nonce: t["nonce"].as_u64().unwrap_or(1),
+                        gas_limit: t["gas_limit"].as_u64().unwrap_or(300_000),
+                        gas_price: t["gas_price"].as_u64().unwrap_or(1) as u128,
+                        prog: t["prog"].as_u64().unwrap_or(0) as u8,
+                    })
+                    .collect()
+            }),
+            balances: v["balances"].as_object().map_or(vec![], |m| {
+                m.iter().map(|(k, b)| (k[1..].parse().unwrap(), u256_of(b))).collect()
+            }),
+            nonces: v["nonces"].as_object().map_or(vec![], |m| {
+                m.iter().map(|(k, b)| (k[1..].parse().unwrap(), b.as_u64().unwrap())).collect()
+            }),
             locs,
             progs,
             raw: v.clone(),
         }
+    }
+}
+
+/// Database wrapper that fails reads of one key: always (`persistent`) or only the first time (`once`).
+#[derive(Debug)]
+pub struct FaultDb {
+    pub inner: InMemoryDB,
+    /// raw location string (`B:<addr>`, `S:<addr>:<slot>`) and mode
+    pub fault: Option<(String, String)>,
+    pub hits: std::sync::atomic::AtomicUsize,
+}
+
+impl FaultDb {
+    pub fn new(inner: InMemoryDB, fault: Option<(String, String)>) -> Self {
+        Self { inner, fault, hits: std::sync::atomic::AtomicUsize::new(0) }
+    }
+    fn check(&self, key: &str) -> Result<(), grevm::test_utils::common::storage::CustomDBError> {
+        if let Some((k, mode)) = &self.fault &&
+            k == key
+        {
+            let n = self.hits.fetch_add(1, std::sync::atomic::Ordering::SeqCst);
+            if mode == "panic" {
+                panic!("injected panic at {key}");
+            }
+            if mode == "persistent" || n == 0 {
+                return Err(grevm::test_utils::common::storage::CustomDBError::new(format!("injected fault at {key}")));
+            }
+        }
+        Ok(())
+    }
+}
+
+impl DatabaseRef for FaultDb {
+    type Error = grevm::test_utils::common::storage::CustomDBError;
+    fn basic_ref(&self, a: Address) -> Result<Option<AccountInfo>, Self::Error> {
+        self.check(&format!("B:{a:x}"))?;
+        self.inner.basic_ref(a)
+    }
+    fn code_by_hash_ref(&self, h: B256) -> Result<Bytecode, Self::Error> {
+        self.inner.code_by_hash_ref(h)
+    }
+    fn storage_ref(&self, a: Address, i: U256) -> Result<U256, Self::Error> {
+        self.check(&format!("S:{a:x}:{i:x}"))?;
+        self.inner.storage_ref(a, i)
+    }
+    fn block_hash_ref(&self, n: u64) -> Result<B256, Self::Error> {
+        self.inner.block_hash_ref(n)
     }
 }
 
@@ -103,7 +210,7 @@ pub fn names(s: &Scenario) -> Vec<(String, String)> {
         (format!("{:x}", driver()), "pc".to_owned()),
         (format!("{:x}", account::MINER_ADDRESS), "ben".to_owned()),
     ];
-    for i in 0..s.n {
+    for i in 0..(s.n + 6) {
         m.push((format!("{:x}", account::mock_eoa_address(i)), format!("e{i}")));
     }
     m
@@ -128,7 +235,20 @@ pub fn loc_name(s: &Scenario, raw: &str) -> String {
 }
 
 pub fn database(s: &Scenario) -> InMemoryDB {
-    let mut accounts = account::mock_block_accounts(s.n);
+    let eoas = s.txs.as_ref().map_or(s.n, |t| {
+        t.iter().flat_map(|x| [x.from + 1, x.to.strip_prefix('e').and_then(|k| k.parse::<usize>().ok()).map_or(0, |k| k + 1)]).max().unwrap_or(s.n).max(s.n)
+    });
+    let mut accounts = account::mock_block_accounts(eoas);
+    for (i, b) in &s.balances {
+        if let Some(a) = accounts.get_mut(&account::mock_eoa_address(*i)) {
+            a.info.balance = *b;
+        }
+    }
+    for (i, n) in &s.nonces {
+        if let Some(a) = accounts.get_mut(&account::mock_eoa_address(*i)) {
+            a.info.nonce = *n;
+        }
+    }
     accounts.insert(
         holder(),
         PlainAccount {
@@ -148,6 +268,24 @@ pub fn database(s: &Scenario) -> InMemoryDB {
 }
 
 pub fn transactions(s: &Scenario) -> Vec<TxEnv> {
+    if let Some(txs) = &s.txs {
+        return txs
+            .iter()
+            .map(|t| TxEnv {
+                caller: account::mock_eoa_address(t.from),
+                kind: TxKind::Call(match t.to.strip_prefix('e').and_then(|k| k.parse::<usize>().ok()) {
+                    Some(k) => account::mock_eoa_address(k),
+                    None => driver(),
+                }),
+                data: Bytes::from(vec![t.prog]),
+                value: t.value,
+                gas_limit: t.gas_limit,
+                gas_price: t.gas_price,
+                nonce: t.nonce,
+                ..Default::default()
+            })
+            .collect();
+    }
     (0..s.n)
         .map(|i| TxEnv {
             caller: account::mock_eoa_address(i),
@@ -195,8 +333,10 @@ pub fn driver_precompile(s: &Scenario) -> DynParallelPrecompile {
     })
 }
 
-pub fn cfg_env() -> CfgEnv {
-    CfgEnv::new_with_spec(SpecId::SHANGHAI)
+pub fn cfg_env_of(s: &Scenario) -> CfgEnv {
+    let mut c = CfgEnv::new_with_spec(SpecId::SHANGHAI);
+    c.disable_nonce_check = s.raw["disable_nonce_check"].as_bool().unwrap_or(false);
+    c
 }
 pub fn block_env() -> BlockEnv {
     BlockEnv { beneficiary: account::MINER_ADDRESS, ..Default::default() }
@@ -224,24 +364,39 @@ fn loc_value<DB: DatabaseRef>(db: &DB, raw: &str) -> String
 where
     DB::Error: std::fmt::Debug,
 {
+    loc_value_opt(db, raw).unwrap_or_else(|| "unavailable".to_owned())
+}
+
+fn loc_value_opt<DB: DatabaseRef>(db: &DB, raw: &str) -> Option<String>
+where
+    DB::Error: std::fmt::Debug,
+{
     let parts: Vec<&str> = raw.split(':').collect();
     let addr: Address = parts[1].parse().unwrap_or_else(|_| format!("0x{}", parts[1]).parse().unwrap());
-    match parts[0] {
-        "B" => digest::info(db.basic_ref(addr).unwrap().as_ref()),
-        "S" => format!("{:x}", db.storage_ref(addr, U256::from_str_radix(parts[2], 16).unwrap()).unwrap()),
-        "C" => db.basic_ref(addr).unwrap().map_or("none".into(), |i| format!("code:{:x}", i.code_hash)),
+    Some(match parts[0] {
+        "B" => digest::info(db.basic_ref(addr).ok()?.as_ref()),
+        "S" => format!("{:x}", db.storage_ref(addr, U256::from_str_radix(parts[2], 16).unwrap()).ok()?),
+        "C" => db.basic_ref(addr).ok()?.map_or("none".into(), |i| format!("code:{:x}", i.code_hash)),
         _ => "none".into(),
-    }
+    })
 }
 
 /// Stock revm, in order, skipping invalid transactions, the same precompile adapter installed.
-pub fn reference(s: &Scenario, universe: &[String]) -> Reference {
-    let db = database(s);
+pub fn reference(s: &Scenario, universe: &[String], with_fault: bool) -> Reference {
+    reference_prefix(s, universe, with_fault, s.n)
+}
+
+/// In-order reference over the first `limit` transactions only.
+pub fn reference_prefix(s: &Scenario, universe: &[String], with_fault: bool, limit: usize) -> Reference {
+    let db = FaultDb::new(database(s), if with_fault { s.fault.clone() } else { None });
+    // the fee recipient is loaded up front, as the scheduler does
+    let preload = db.basic_ref(account::MINER_ADDRESS).err().map(|e| format!("Database({e:?})"));
+    let limit = if preload.is_some() { 0 } else { limit };
     let state = StateBuilder::new().with_bundle_update().with_database_ref(db).build();
-    let spec = cfg_env().spec;
+    let spec = cfg_env_of(s).spec;
     let mut evm = Context::mainnet()
         .with_db(state)
-        .with_cfg(cfg_env())
+        .with_cfg(cfg_env_of(s))
         .with_block(block_env())
         .build_mainnet_with_inspector(revm_inspector::NoOpInspector {})
         .with_precompiles(PrecompilesMap::from_static(EthPrecompiles::new(spec).precompiles));
@@ -254,8 +409,8 @@ pub fn reference(s: &Scenario, universe: &[String]) -> Reference {
     let mut steps = Vec::new();
     let mut outcomes = Vec::new();
     let mut states = vec![snapshot(&mut evm)];
-    let mut error = None;
-    for (k, tx) in transactions(s).into_iter().enumerate() {
+    let mut error = preload.map(|e| (0, e));
+    for (k, tx) in transactions(s).into_iter().enumerate().take(limit) {
         match evm.transact_raw(tx) {
             Ok(rs) => {
                 steps.push(RefStep {
@@ -341,9 +496,9 @@ pub fn run_scheduler(s: &Scenario, cfg: Config, workers: usize, force_sequential
         // by main) reports and exits.
         crate::fatal_exit();
     });
-    let db = Arc::new(database(s));
+    let db = Arc::new(FaultDb::new(database(s), s.fault.clone()));
     let scheduler = Scheduler::new_with_runtime_config(
-        cfg_env(),
+        cfg_env_of(s),
         block_env(),
         Arc::new(transactions(s)),
         ParallelState::new(db, true, false),
@@ -357,14 +512,24 @@ pub fn run_scheduler(s: &Scenario, cfg: Config, workers: usize, force_sequential
     );
     verif::install(ctl.clone());
     ctl.register_single_root("main");
-    let result = scheduler.execute();
+    let result = std::panic::catch_unwind(std::panic::AssertUnwindSafe(|| scheduler.execute()));
     ctl.finish_root();
     verif::uninstall();
+    let result = match result {
+        Ok(r) => r.map_err(|e| (e.txid, format!("{:?}", e.error))),
+        Err(payload) => Err((
+            usize::MAX,
+            format!(
+                "panic: {}",
+                payload.downcast_ref::<String>().cloned().or_else(|| payload.downcast_ref::<&str>().map(|s| (*s).to_owned())).unwrap_or_default()
+            ),
+        )),
+    };
     let (outcomes, mut state) = scheduler.take_result_and_state();
     let bundle = state.parallel_take_bundle(BundleRetention::Reverts);
     SchedOutcome {
         record: ctl.record(),
-        result: result.map_err(|e| (e.txid, format!("{:?}", e.error))),
+        result,
         outcomes,
         bundle,
     }
@@ -373,6 +538,47 @@ pub fn run_scheduler(s: &Scenario, cfg: Config, workers: usize, force_sequential
 /// Harness-side monitors: the property statements evaluated on one observed run.
 pub fn monitors(s: &Scenario, reference: &Reference, o: &SchedOutcome) -> Vec<(String, String)> {
     let mut v: Vec<(String, String)> = Vec::new();
+    // A panic of the user-supplied database inside a worker must reach the caller unchanged.
+    if let Some((key, mode)) = &s.fault &&
+        mode == "panic"
+    {
+        // does in-order execution touch the key at all?
+        let touches = std::panic::catch_unwind(|| reference_prefix(s, &[], true, s.n)).is_err();
+        match &o.result {
+            Err((k, e)) if *k == usize::MAX => {
+                if !e.contains(&format!("injected panic at {key}")) {
+                    v.push(("C05".into(), format!("the caller saw a different panic payload: {e}")));
+                }
+                if !touches {
+                    v.push(("C04".into(), format!("a panic on a key that in-order execution never reads was raised: {e}")));
+                }
+            }
+            other => {
+                if touches {
+                    v.push(("C05".into(), format!("in-order execution panics at {key} but execute() returned {other:?}")));
+                }
+            }
+        }
+        return v;
+    }
+    // A transient (fail-once) fault is either absorbed (then everything below applies unchanged with
+    // the fault-free reference) or reported with an exact prefix of the fault-free execution.
+    if let Some((_, mode)) = &s.fault &&
+        mode == "once" &&
+        let Err((k, e)) = &o.result
+    {
+        if !e.contains("injected fault") {
+            v.push(("C04".into(), format!("reported error is not the injected fault: tx {k}: {e}")));
+        }
+        if o.outcomes.len() != *k || o.outcomes[..] != reference.outcomes[..(*k).min(reference.outcomes.len())] {
+            v.push(("C04".into(), format!("after the transient fault at tx {k} the returned outcomes ({}) are not the first {k} in-order outcomes", o.outcomes.len())));
+        }
+        let prefix = reference_prefix(s, &[], false, *k);
+        if let Some(d) = bundle_diff(&prefix.bundle, &o.bundle) {
+            v.push(("C04".into(), format!("after the transient fault at tx {k} the state is not the effect of the first {k} transactions: {d}")));
+        }
+        return v;
+    }
     // C02: every commit event equals step k of the reference, in order, once
     let mut next = 0usize;
     for e in o.record.events.iter().filter(|e| e.label == "C_Apply") {
@@ -439,7 +645,7 @@ pub fn trace_events(s: &Scenario, rec: &RunRecord) -> Vec<Value> {
         "P_Pub", "E_Done", "P_Unpub", "P_Est", "D_Add", "E_HeadCheck", "D_KeyTx", "X_Publish",
         "T_Rewind1", "T_Rewind2", "E_End", "V_Begin", "V_Ts", "V_Scan", "T_Unconf", "V_End", "V_Notify",
         "N_Notify", "N_Register", "N_Park", "F_Loop", "F_ValLoad", "F_Lock", "F_Decide", "F_Final", "F_Publish",
-        "F_Pred", "C_Loop", "C_FinLoad", "C_Take", "C_Apply", "C_Publish", "D_Commit", "C_Pred", "A_Abort",
+        "F_Pred", "C_Loop", "C_FinLoad", "C_Take", "C_Nonce", "C_Apply", "C_Publish", "D_Commit", "C_Pred", "A_Abort",
         "A_Cancel", "M_Post", "S_Tx", "M_Path",
     ];
     let mut out = Vec::new();
